@@ -4,8 +4,8 @@ SPEC = {
     'repo_srcs': ['N2kMsg.cpp', 'N2kStream.cpp', 'N2kMessages.cpp', 'N2kTimer.cpp', 'N2kGroupFunction.cpp',
                   'N2kGroupFunctionDefaultHandlers.cpp', 'NMEA2000.cpp', 'N2kDeviceList.cpp'],
     'variants': ['', 't32'],
-    'lean_modules': ['N2k.Props.C07'], 'props_files': ['N2k/Props/C07.lean'],
-    'translators': ['pgn_tables'],
+    'lean_modules': ['N2k.Props.Consts.C07', 'N2k.Props.C07'], 'props_files': ['N2k/Props/Consts/C07.lean', 'N2k/Props/C07.lean'],
+    'translators': ['constants', 'pgn_tables'],
     'case_start': ['reset'],
     'asan_options': ':redzone=1024',   # Devices[-1] must land in a red zone (sizeof(tInternalDevice) < 1024)
     'timeout': 1500,
